@@ -65,6 +65,7 @@ nodes: dict[str, NodeSpec] = {
                 "getAttrs": lambda dom_: {
                     "src": dom_.get("src"),
                     "title": dom_.get("title"),
+                    "alt": dom_.get("alt"),
                 },
             },
         ],
